@@ -53,6 +53,14 @@ def apply_mutant(m, scratch):
             return False
         with open(path, 'w', encoding='utf-8') as f:
             f.write(s.replace(edit['old'], edit['new']))
+    if m.get('regen'):
+        # a consistent grammar change: parser.py is regenerated from the edited grammar
+        import tatsu
+        g = os.path.join(scratch, 'beanquery', 'parser', 'bql.ebnf')
+        with open(g, encoding='utf-8') as f:
+            src = tatsu.to_python_sourcecode(f.read())
+        with open(os.path.join(scratch, 'beanquery', 'parser', 'parser.py'), 'w', encoding='utf-8') as f:
+            f.write(src)
     return True
 
 
